@@ -300,7 +300,7 @@ def single_op(spec):
             node = slists[i][1]
             items = spec_leaves(node)
             tree = subtree(node)
-            base = {"op": J("slistop"), "sl": J(i), "what": st.sampled_from(["append", "append-config", "insert", "extend", "setitem", "pop", "clear", "item-set", "item-set", "iadd"]),
+            base = {"op": J("slistop"), "sl": J(i), "what": st.sampled_from(["append", "append-config", "insert", "extend", "setitem", "pop", "clear", "item-set", "item-set", "item-set", "iadd", "reappend", "reinsert"]),
                     "tree": tree, "trees": st.lists(tree, max_size=2), "i": st.integers(-3, 3), "junk": specs.junk()}
             if items:
                 base["item_leaf"] = st.integers(0, len(items) - 1).flatmap(lambda j: st.tuples(J(j), value_for(items[j][1])))
@@ -642,6 +642,15 @@ def apply_op(world, state, op):
                 lst.pop()
             elif what == "clear":
                 lst.clear()
+            elif what in ("reappend", "reinsert"):
+                # a configuration the list already holds is handed to the same list again
+                if not lst:
+                    return Outcome("skipped")
+                item = lst[i % len(lst)]
+                if what == "reappend":
+                    lst.append(item)
+                else:
+                    lst.insert(i, item)
             elif what == "item-set":
                 if not lst or op["item_leaf"] is None:
                     return Outcome("skipped")
